@@ -269,7 +269,11 @@ impl<'a> ExpressionEvaluator<'a> {
                     }
                 }
             }
-            _ => unreachable!("Should not reach here when calling the evaluator"),
+            // Aggregate / CASE / `*` can reach the scalar evaluator (e.g. an aggregate inside HAVING):
+            // report it instead of killing the worker thread.
+            _ => Err(EvaluationError::InvalidExpression(
+                "expression is not supported in this context".to_string(),
+            )),
         }
     }
 
